@@ -516,6 +516,12 @@ class _Expr(ast.NodeTransformer):
             return ast.IfExp(test=node.test.operand, body=node.orelse, orelse=node.body)
         if _neg_cmp(node.test) is not None:
             return ast.IfExp(test=_neg_cmp(node.test), body=node.orelse, orelse=node.body)
+        t = node.test
+        if isinstance(t, ast.Compare) and len(t.ops) == 1 and isinstance(t.ops[0], (ast.LtE, ast.GtE)) and self.root is not None \
+                and _int_typed(t.left, self.root) and _int_typed(t.comparators[0], self.root):
+            # on ints ``not (a <= b)`` is ``a > b``: keep the strict form (as for if statements)
+            neg = ast.Compare(left=t.left, ops=[_ORD_NEG[type(t.ops[0])]()], comparators=t.comparators)
+            return self.visit(ast.IfExp(test=neg, body=node.orelse, orelse=node.body))
         if isinstance(node.body, ast.IfExp) and ast.dump(node.body.orelse) == ast.dump(node.orelse) \
                 and not _has_call(node.orelse):
             return ast.IfExp(test=ast.BoolOp(op=ast.And(), values=[node.test, node.body.test]), body=node.body.body,
@@ -653,6 +659,31 @@ def _pure_value(e):
                for n in ast.walk(e)) and not isinstance(e, (ast.Name, ast.Constant))
 
 
+def _movable_value(e):
+    """total, effect-free, reads plain names only: names, constants, ``is`` / ``is not`` None tests, ``not``, conditional
+    expressions and list / tuple / dict / set displays of such (a display makes a new object: with a single use there
+    is nobody to share it with)"""
+    if isinstance(e, (ast.Name, ast.Constant)):
+        return True
+    if isinstance(e, ast.UnaryOp) and isinstance(e.op, ast.Not):
+        o = e.operand
+        return isinstance(o, ast.Compare) and _movable_value(o)      # `not x` on a plain name may call __bool__
+    if isinstance(e, ast.Compare) and len(e.ops) == 1 and isinstance(e.ops[0], (ast.Is, ast.IsNot)):
+        return _movable_value(e.left) and _movable_value(e.comparators[0])
+    if isinstance(e, ast.IfExp):
+        t = e.test
+        while isinstance(t, ast.UnaryOp) and isinstance(t.op, ast.Not):
+            t = t.operand
+        test_total = isinstance(t, ast.Compare) and len(t.ops) == 1 and isinstance(t.ops[0], (ast.Is, ast.IsNot)) \
+            and _movable_value(t)          # the truth value of a plain name may call __bool__ (a Stream raises)
+        return test_total and _movable_value(e.body) and _movable_value(e.orelse)
+    if isinstance(e, (ast.Tuple, ast.List, ast.Set)):
+        return all(_movable_value(x) for x in e.elts)
+    if isinstance(e, ast.Dict):
+        return all(k is not None and isinstance(k, ast.Constant) for k in e.keys) and all(_movable_value(x) for x in e.values)
+    return False
+
+
 def _total_flag(e, fn):
     """an expression that cannot raise, has no effect and depends only on the identity / type of plain names:
     ``x is None``, ``x is not None``, ``isinstance(x, T)``, ``len(<*args tuple>)``, and ``not`` / ``and`` / ``or`` of
@@ -674,6 +705,10 @@ def _total_flag(e, fn):
                 and fn.args.vararg is not None and e.args[0].id == fn.args.vararg.arg:
             return True
     return False
+
+
+def _copy_expr(e):
+    return ast.parse(ast.unparse(e), mode="eval").body
 
 
 def _blocks_of(fn):
@@ -1222,6 +1257,22 @@ def _norm_simple(stmts, ctx):
                     changed = True
                     i += 1
                     continue
+                # a value that cannot raise, has no effect and reads only locals (x is None tests, literals, displays,
+                # conditional expressions of those) may be computed anywhere before its single use
+                if uses_next == 0 and not stores_next and _movable_value(st.value) and ctx.get("root") is not None \
+                        and sum(1 for n in ast.walk(ctx["root"]) if isinstance(n, ast.Name) and n.id == v) == 2:
+                    ins = {n.id for n in _names(st.value, ast.Load)}
+                    j = i + 1
+                    while j < len(stmts) and _count_loads(stmts[j], v) == 0 and not (ins & _stored_names(stmts[j])) \
+                            and not isinstance(stmts[j], FuncTypes + (ast.ClassDef,)):
+                        j += 1
+                    if j < len(stmts) and _count_loads(stmts[j], v) == 1 and v not in _stored_names(stmts[j]) \
+                            and not isinstance(stmts[j], (ast.For, ast.While, ast.Try, ast.With) + FuncTypes) \
+                            and not (ins & _stored_names(stmts[j])):
+                        stmts[j] = _Subst({v: st.value}).visit(stmts[j])
+                        del stmts[i]
+                        changed = True
+                        continue
                 if not used_later and uses_next == 1 and not stores_next:
                     first = _loaded_first(nxt, v)
                     pure = _simple_arg(st.value) and not isinstance(nxt, (ast.For, ast.While, ast.If, ast.Try, ast.With) + FuncTypes)
@@ -1254,6 +1305,23 @@ def _norm_simple(stmts, ctx):
                     changed = True
                     i += 2
                     continue
+            if isinstance(st, ast.Return) and isinstance(st.value, ast.Call) and st.value.args \
+                    and isinstance(st.value.args[0], ast.IfExp) and (
+                        isinstance(st.value.func, ast.Name) or (isinstance(st.value.func, ast.Attribute)
+                                                                and isinstance(st.value.func.value, ast.Name))):
+                # return F(A if c else B, rest)  ==  if c: return F(A, rest) else: return F(B, rest)
+                # (looking F up has no effect; c is the first thing evaluated either way; rest follows the chosen arm)
+                c_ = st.value
+                e = c_.args[0]
+
+                def mk_(arm):
+                    return ast.Return(value=ast.Call(func=_copy_expr(c_.func), args=[arm] + [_copy_expr(a_) for a_ in c_.args[1:]],
+                                                     keywords=[ast.keyword(arg=k_.arg, value=_copy_expr(k_.value)) for k_ in c_.keywords]),
+                                      lineno=st.lineno, col_offset=0)
+                out.append(ast.If(test=e.test, body=[mk_(e.body)], orelse=[mk_(e.orelse)], lineno=st.lineno, col_offset=0))
+                changed = True
+                i += 1
+                continue
             if isinstance(st, ast.Return) and isinstance(st.value, ast.IfExp):
                 e = st.value
                 out.append(ast.If(test=e.test, body=[ast.Return(value=e.body, lineno=st.lineno, col_offset=0)],
@@ -1318,18 +1386,29 @@ def _neg_cmp(t):
 def _int_typed(e, root, depth=0):
     """expression certainly an int: int literal, int(..) / len(..), or a local whose every binding is one of these"""
     if isinstance(e, ast.Constant):
-        return type(e.value) is int
+        # '<RF ..>' is the normal form this module writes for arithmetic over provably int-typed names only
+        return type(e.value) is int or (isinstance(e.value, str) and e.value.startswith("<RF "))
     if isinstance(e, ast.Call) and isinstance(e.func, ast.Name) and e.func.id in ("int", "len") and len(e.args) == 1:
         return True
     if isinstance(e, ast.BinOp) and isinstance(e.op, (ast.Add, ast.Sub, ast.Mult)):
         return _int_typed(e.left, root, depth) and _int_typed(e.right, root, depth)
     if isinstance(e, ast.UnaryOp) and isinstance(e.op, ast.USub):
         return _int_typed(e.operand, root, depth)
-    if isinstance(e, ast.Name) and root is not None and depth < 2:
+    if isinstance(e, ast.Name) and root is not None and depth < 5:
         defs = []
         for n in ast.walk(root):
             if isinstance(n, ast.Assign) and any(isinstance(t, ast.Name) and t.id == e.id for t in n.targets):
                 defs.append(n.value)
+            elif isinstance(n, ast.Assign) and len(n.targets) == 1 and isinstance(n.targets[0], (ast.Tuple, ast.List)) \
+                    and any(isinstance(t, ast.Name) and t.id == e.id for t in n.targets[0].elts):
+                # a, b = X, Y : element-wise; anything else that unpacks into the name is unknown
+                if isinstance(n.value, (ast.Tuple, ast.List)) and len(n.value.elts) == len(n.targets[0].elts) \
+                        and not any(isinstance(x, ast.Starred) for x in n.targets[0].elts + n.value.elts):
+                    for t, v in zip(n.targets[0].elts, n.value.elts):
+                        if isinstance(t, ast.Name) and t.id == e.id:
+                            defs.append(v)
+                else:
+                    return False
             elif isinstance(n, (ast.AugAssign, ast.For, ast.With, ast.comprehension, ast.arg, ast.NamedExpr)):
                 tg = n.target if hasattr(n, "target") else None
                 if isinstance(n, ast.arg) and n.arg == e.id:
